@@ -127,6 +127,28 @@ def loopRun (body : Body) : Nat → Nat → Bool → List RtVal → Option (List
       | none => none
       | some (fin, scs) => some (fin, sc :: scs)
 
+/-- The trip count `M` OMITTED: the loop runs until the condition turns false. `fuel` only bounds the
+    evaluation: `none` when the loop has not stopped within `fuel` iterations (a diverging loop produces
+    no runtime value, so the property says nothing about it). -/
+def loopRunUntil (body : Body) : Nat → Nat → Bool → List RtVal → Option (List RtVal × List (List RtVal))
+  | _, _, false, vs => some (vs, [])
+  | 0, _, true, _ => none
+  | f + 1, i, true, vs =>
+    match body i vs with
+    | none => none
+    | some (c, vs', sc) =>
+      match loopRunUntil body f (i + 1) c vs' with
+      | none => none
+      | some (fin, scs) => some (fin, sc :: scs)
+
+/-- ONNX `Loop` with both optional inputs: `M = none` is an omitted trip count, `cond = none` an omitted
+    condition (= true). -/
+def loopRunOpt (body : Body) (M : Option Nat) (cond : Option Bool) (fuel : Nat) (vs : List RtVal) :
+    Option (List RtVal × List (List RtVal)) :=
+  match M with
+  | some m => loopRun body m 0 (cond.getD true) vs
+  | none => loopRunUntil body fuel 0 (cond.getD true) vs
+
 /-- A scan output stacks the slices of all `k ≥ 1` iterations along a new leading axis; every slice
     must have the shape of the first. -/
 def stackScan : List RtVal → Option RtVal
